@@ -2,9 +2,10 @@
 //
 //	TestPropSelect   generated configuration (1-4 rule blocks, 0-3 match / 0-3 ignore sub-blocks over all
 //	                 nine condition kinds, one marker check per block) x generated rule files (small vocabulary,
-//	                 group-level labels) x every command {lint, ci, watch} x every entry state
-//	                 {noop, added, modified, moved}: the set of marker checks config.GetChecksForEntry returns
-//	                 must equal what a reference evaluator written from docs/configuration.md says.
+//	                 group-level labels) x 2-4 drawn (command, entry state) pairs from {lint, ci, watch} x
+//	                 {noop, added, modified, moved} (a stored case without pairs is evaluated under all twelve):
+//	                 the set of marker checks config.GetChecksForEntry returns must equal what a reference
+//	                 evaluator written from docs/configuration.md says.
 //	TestReplay       the same oracle on one stored case.
 //
 // Reference semantics (docs/configuration.md, "Matching rules to checks" and "Regexp matchers"):
